@@ -69,7 +69,7 @@ def rules(chk, db):
     for rec in ('nop::BufferReader', 'nop::PedanticBufferReader'):
         rwrules.check_buffer_class(chk, db, rec, ids)
     c16.rules(chk, db, prefix='BR.', only={'nop::BoundedReader'})
-    encrules.read_rules(chk, db, want=('ENS', 'GRD'))
+    encrules.read_rules(chk, db, want=('ENS', 'GRD', 'RST'))      # RST: no decode into storage that was never constructed
     encrules.narrowing(chk, db, 'NR.r', {'ReadPayload', 'Read'})
     termination(chk, db, 'TM')
     tablerules.rules(chk, db, {'TS', 'TR'})
